@@ -123,13 +123,13 @@ func (n *Node) AddFiller(parentID, prefix string, k int) *Block {
 
 func (n *Node) add(id string, parent *Block, num uint64, logs []LogSpec) *Block {
 	h := &types.Header{
-		Number:     new(big.Int).SetUint64(num),
-		Time:       baseTime + 5*num,
-		Difficulty: big.NewInt(0),
-		GasLimit:   30_000_000,
-		Extra:      []byte("fakeeth:" + id),
-		UncleHash:  types.EmptyUncleHash,
-		TxHash:     types.EmptyTxsHash,
+		Number:      new(big.Int).SetUint64(num),
+		Time:        baseTime + 5*num,
+		Difficulty:  big.NewInt(0),
+		GasLimit:    30_000_000,
+		Extra:       []byte("fakeeth:" + id),
+		UncleHash:   types.EmptyUncleHash,
+		TxHash:      types.EmptyTxsHash,
 		ReceiptHash: types.EmptyReceiptsHash,
 	}
 	if parent != nil {
@@ -324,10 +324,10 @@ type FilterArg struct {
 
 func (f *FilterArg) UnmarshalJSON(data []byte) error {
 	var raw struct {
-		BlockHash *common.Hash     `json:"blockHash"`
-		FromBlock *rpc.BlockNumber `json:"fromBlock"`
-		ToBlock   *rpc.BlockNumber `json:"toBlock"`
-		Address   json.RawMessage  `json:"address"`
+		BlockHash *common.Hash      `json:"blockHash"`
+		FromBlock *rpc.BlockNumber  `json:"fromBlock"`
+		ToBlock   *rpc.BlockNumber  `json:"toBlock"`
+		Address   json.RawMessage   `json:"address"`
 		Topics    []json.RawMessage `json:"topics"`
 	}
 	if err := json.Unmarshal(data, &raw); err != nil {
